@@ -275,15 +275,19 @@ def check_case(ctx, case, with_dask=False):
             ra = arr.cx[x0:x1, y0:y1]
             rf = df.cx[x0:x1, y0:y1]
             ro = df.cx[:, y0:y1] if n_ else rf
-            return gg.pylist(ra), rf["rid"].tolist(), ro["rid"].tolist()
+            rall = (df.cx[-1e6:1e6, -1e6:1e6]["rid"].tolist() + [-7] + df.cx[:, :]["rid"].tolist()) if n_ else [-7]
+            return gg.pylist(ra), rf["rid"].tolist(), ro["rid"].tolist(), rall
         op = f"cx-{'ps%d' % ps if indexed else 'noindex'}"
         r = run_op(op, lambda: (cx_rows(base, nb), cx_rows(full, nf)))
         if r is not None:
-            (el0, rid0, ro0), (el1, rid1, ro1) = r
+            (el0, rid0, ro0, ra0), (el1, rid1, ro1, ra1) = r
             inert_set = set(inert_pos.tolist())
             pos_of = {int(p_): i for i, p_ in enumerate(keep.tolist())}
             if inert_set & set(rid1) or inert_set & set(ro1):
                 viol("inert-selected", op, rid0, rid1)
+            elif inert_set & set(ra1) or [pos_of.get(v, v) for v in ra1] != ra0:
+                viol("inert-selected" if inert_set & set(ra1) else "others-changed", op + "-covering-box",
+                     ra0, ra1)
             elif [pos_of[v] for v in rid1] != rid0:
                 viol("others-changed", op, rid0, [pos_of.get(v, -1) for v in rid1])
             elif nb and [pos_of[v] for v in ro1] != ro0:
